@@ -8,7 +8,7 @@ pub fn prop() -> Prop {
     Prop {
         id: "C11",
         level: "model_checking",
-        rule: "all sequences S of <=5 (thorough <=7) values over a 6-value universe (three records with per-record regex patterns incl. an invalid one, a record without the selected members, a scalar, an array with a nested cell longer than 64 bytes; two records share a pattern and a split element but differ in what a macro reads besides `.`) — i.e. every concatenation A.B with |A|+|B| <= 5 (thorough 7), every permutation and every duplication — x 29 pipelines made of --set, --split-by, --filter, --select (regex functions with cache sizes 0,1,2; variables; macros; previously selected names; ^ after split; --only-objects-and-arrays) x 6 output styles (one-line, consise, pretty, text, csv, one-line with --utf8-strings) plus text with --headers; a selection text taken from the record (valid, unparsable, valid, empty; directly and through a variable or macro bound per record); member names that are not ASCII reaching the row printer, the nested-cell printer and stringify in a record-dependent order; and sequences of 64, 257 and 1031 values; sequences of <=4 values mixing small records with rows of 1 KiB, 9 KiB and 20 KiB; every pipeline and style also on the real executable, every run a process of its own (singles, all pairs, all triples A B A; a fresh process must print what the used worker process prints); non-trivial = S holds two values with different rows; distinct by construction; a third of the sequences of <=3 values is also delivered as files, one value per file, a repeated value being the same file named again",
+        rule: "all sequences S of <=5 (thorough <=7) values over a 6-value universe (three records with per-record regex patterns incl. an invalid one, a record without the selected members, a scalar, an array with a nested cell longer than 64 bytes; two records share a pattern and a split element but differ in what a macro reads besides `.`) — i.e. every concatenation A.B with |A|+|B| <= 5 (thorough 7), every permutation and every duplication — x 29 pipelines made of --set, --split-by, --filter, --select (regex functions with cache sizes 0,1,2; variables; macros; previously selected names; ^ after split; --only-objects-and-arrays) x 6 output styles (one-line, consise, pretty, text, csv, one-line with --utf8-strings, consise with an empty row separator) plus text with --headers; a selection text taken from the record (valid, unparsable, valid, empty; directly and through a variable or macro bound per record); member names that are not ASCII reaching the row printer, the nested-cell printer and stringify in a record-dependent order; and sequences of 64, 257 and 1031 values; sequences of <=4 values mixing small records with rows of 1 KiB, 9 KiB and 20 KiB; every pipeline and style also on the real executable, every run a process of its own (singles, all pairs, all triples A B A; a fresh process must print what the used worker process prints); non-trivial = S holds two values with different rows; distinct by construction; a third of the sequences of <=3 values is also delivered as files, one value per file, a repeated value being the same file named again",
         explanation: "metamorphic: out(S) must be the header (out of the empty input) followed by the bodies of out([s]) for each s in S in order; this single relation over all S implies out(A.B)=out(A).out(B), permutation and duplication",
         assumptions: COMMON_ASSUMPTIONS.to_vec(),
         guards: vec!["every-run-a-process-of-its-own", "values-delivered-as-files", "same-file-named-twice", "row-beyond-every-buffer", "hundreds-of-records", "two-patterns-through-a-one-entry-cache", "header-printed-once", "split-produced-rows", "value-dropped-by-filter", "repeated-value"],
@@ -102,7 +102,7 @@ fn pipelines() -> Vec<Pl> {
     v
 }
 
-const STYLES: [(&str, &[&str]); 7] = [
+const STYLES: [(&str, &[&str]); 8] = [
     ("one-line", &["--output-style=json", "--style=one-line"]),
     ("consise", &["--output-style=json", "--style=consise"]),
     ("pretty", &["--output-style=json", "--style=pretty"]),
@@ -110,6 +110,8 @@ const STYLES: [(&str, &[&str]); 7] = [
     ("text-headers", &["--output-style=text", "--headers"]),
     ("csv", &["--output-style=csv"]),
     ("one-line-utf8", &["--output-style=json", "--style=one-line", "--utf8-strings"]),
+    // off-nominal: no row separator at all (the rows are glued; the relation is on bytes, so it still holds)
+    ("consise-glued", &["--output-style=json", "--style=consise", "--row-seperator="]),
 ];
 
 thread_local! {
